@@ -42,7 +42,10 @@ RULE = ("ambient-state list and Clone field maps regenerated from /repo/src on e
         "containers of 2..7/10 replicas with very different betas (uneven task lengths), random programs mixing timesteps_sample, "
         "tempering_step, timesteps: serial vs rayon in pools of 1,2,3,4,7,16 (quick) / 1..16 (thorough) threads x 2/4 repeated "
         "executions, comparing returned samples, energy bits, replicas, swap count and the full JSON snapshot (container RNG "
-        "included; always >= 2 replicas there); one-replica containers compared on returns/replicas and on the modelled draw "
+        "included; always >= 2 replicas there); long ladders of 70, 130 and 67 replicas of a 3-spin system (smooth beta ladder, hundreds of swaps) serial vs rayon in pools of "
+        "1, 4, 9 threads; clone_from scenarios: dst.clone_from(&src) for Ising / generic / classical samplers and containers where dst is "
+        "further along (larger cutoff, more ops), behind, equal or fresh, has other options (rvb, heat bath toggled) or is another model: "
+        "dst must equal src.clone(), src untouched, and both continue identically; one-replica containers compared on returns/replicas and on the modelled draw "
         "counts.  Non-trivial = at least one operator present at the end; distinct = distinct case line.")
 
 
